@@ -394,6 +394,9 @@ impl<T> Future for ReceiveFuture<'_, T> {
                 _ => {
                     if this.is_stream {
                         this.state = FutureState::Zero;
+                        // the signal still holds the final state of the previous
+                        // item, it must be locked again before it is reused
+                        this.sig = Signal::new_async();
                         continue;
                     }
                     panic!("polled after result is already returned")
